@@ -151,6 +151,8 @@ def units(tier):
     from .. import scale
     for n in scale.sizes(tier):
         us.append({"kind": "scale-trunc", "size": n})
+    for n in scale.BIG:
+        us.append({"kind": "scale-trunc", "size": n, "big": True})
     return us
 
 
@@ -372,8 +374,16 @@ def scale_rigid_terms(n):
     ]
 
 
-def run_scale_trunc(n, r):
-    for t in scale_rigid_terms(n):
+def run_scale_trunc(n, r, big=False):
+    terms = scale_rigid_terms(n)
+    if big:
+        # beyond 2**20 bytes: only the constructs whose fixed part costs nothing to process (pads, raw bytes, regions)
+        B = G.BYTE
+        S = lambda *ms: ["Struct", [list(m) for m in ms]]
+        terms = [["Padding", n], S(("h", ["Bytes", 16]), ("p", ["Padding", n])), S(("h", B), ("p", ["Padding", n]), ("t", B)), ["Padded", n, G.I(2, False, "b"), b"\x00"],
+                 S(("m", ["ConstB", b"\x00\x00\x00\x00"]), ("a", ["Padded", n, B, b"\x00"]), ("pos", ["Tell"])), ["Aligned", n, B, b"\x00"], ["Bytes", n], ["FixedSized", n, ["GreedyBytes"]],
+                 S(("h", B), ("f", ["FixedSized", n, B])), S(("n", G.I(4, False, "b")), ("p", ["Padding", ["this", "n"]]))]
+    for t in terms:
         d = T.mk(t)
         tsig = "scale:" + T.sig_of(t)
         if t[0] == "Struct" and t[1][0][0] == "n":
@@ -398,7 +408,7 @@ def run_scale_trunc(n, r):
         if full[0] != "ok":
             r.violation("C06/scale/canonical-encoding-rejected/" + tsig, {"part": "scale", "term": t, "size": n}, "%s: its %d-byte encoding is rejected: %r" % (T.show(t), len(enc), full[:2]))
             continue
-        cuts = sorted({0, 1, len(enc) // 2, len(enc) - 2, len(enc) - 1, max(0, len(enc) - 8192), max(0, len(enc) - 8193), 5, len(enc) - 4097} & set(range(len(enc))))
+        cuts = sorted(c for c in {0, 1, len(enc) // 2, len(enc) - 2, len(enc) - 1, len(enc) - 8192, len(enc) - 8193, 5, 16, 17, len(enc) - 4097, len(enc) - 16, len(enc) - 17} if 0 <= c < len(enc))
         for cut in cuts:
             r.states += 1
             p = rt.parse(d, enc[:cut], {}, timeout=60)
@@ -412,7 +422,7 @@ def run_scale_trunc(n, r):
 def run_unit(unit, tier):
     r = UnitResult()
     if unit["kind"] == "scale-trunc":
-        run_scale_trunc(unit["size"], r)
+        run_scale_trunc(unit["size"], r, unit.get("big", False))
         return r
     if unit["kind"] == "input":
         run_input(unit, tier, r)
@@ -423,7 +433,7 @@ def run_unit(unit, tier):
 
 def replay(case):
     if case.get("part") == "scale":
-        r = UnitResult(); run_scale_trunc(case["size"], r)
+        r = UnitResult(); run_scale_trunc(case["size"], r, case["size"] > 1000000)
         return [v for v in r.violations if v["case"].get("term") == case["term"] and v["case"].get("cut") == case.get("cut")]
     t = case["term"]
     d = T.mk(t)
